@@ -682,9 +682,23 @@ def _split_chain():
     def lem(name, stmt, induct=None, hi=None, export=False):
         L.append(dict(name=name, induct=induct, lo=0, hi=hi, stmt=stmt, export=export) if induct else dict(name=name, noinduct=True, stmt=stmt, export=export))
 
-    # pairs (l, l + m), m < M, of one row: wt_l times the partial coefficient sums over the positions l .. l + M - 1
-    lem("LA2", "forall(0, P, lambda i: forall(0, 4, lambda j: forall(0, " + W + ", lambda l: forall(0, P, lambda a: implies(" + H0 + " and l + M <= " + W + ", " + SH("a", "M") + " == " + SC("a", "l + M") + " - " + SC("a", "l")
-               + "), pat=" + SH("a", "M") + "))))", "M", W)
+    # forward-triggered unfolding of the prefix sum.  The built-in recurrence fires on S(.., k + 1); z3 matches it against S(.., T) with
+    # k := T - 1, and the array reads mp[r, T - 1] in that instance are not syntactically the reads mp[r, l + M] of the shifted sum, so the
+    # proof would hinge on theory combination guessing the index equality (measured: it succeeds for about half of the random seeds).
+    # Triggered on the pair S(.., k), S(.., k + 1) instead, the instance carries the index term exactly as it occurs (and no chain of
+    # further instances is started).
+    lem("SCF", "forall(0, P, lambda i: forall(0, 4, lambda j: forall(0, P, lambda a: forall(0, " + W + ", lambda k: implies(" + H0 + ", " + SC("a", "k + 1") + " == " + SC("a", "k")
+               + " + (wt[i * 4 + j, k] if mp[i * 4 + j, k] == a else 0) and " + SQ("a", "k + 1") + " == " + SQ("a", "k") + " + (wt[i * 4 + j, k] * wt[i * 4 + j, k] if mp[i * 4 + j, k] == a else 0)),"
+               " pat=((" + SC("a", "k") + ", " + SC("a", "k + 1") + "), (" + SQ("a", "k") + ", " + SQ("a", "k + 1") + "))))))")
+    # shifted sum = difference of prefix sums.  Proved in its own anchor (c07_hsa) with a forward unfolding triggered on S(.., k) alone, which
+    # this lemma needs (S(.., l + M) only appears once the induction hypothesis is instantiated) but which would start chains of instances
+    # in the algebraic lemmas below.
+    LA2 = [dict(name="SCF1", noinduct=True, export=False,
+                stmt="forall(0, P, lambda i: forall(0, 4, lambda j: forall(0, P, lambda a: forall(0, " + W + ", lambda k: implies(" + H0 + ", " + SC("a", "k + 1") + " == " + SC("a", "k")
+                     + " + (wt[i * 4 + j, k] if mp[i * 4 + j, k] == a else 0)), pat=" + SC("a", "k") + "))))"),
+           dict(name="LA2", induct="M", lo=0, hi=W, export=True,
+                stmt="forall(0, P, lambda i: forall(0, 4, lambda j: forall(0, " + W + ", lambda l: forall(0, P, lambda a: implies(" + H0 + " and l + M <= " + W + ", " + SH("a", "M") + " == " + SC("a", "l + M") + " - " + SC("a", "l")
+                     + "), pat=" + SH("a", "M") + "))))")]
     lem("LA1", QL(H0 + " and l + M <= " + W, T3("M") + " == (wt[i * 4 + j, l] * " + SH("b", "M") + " if mp[i * 4 + j, l] == a else 0) + (wt[i * 4 + j, l] * " + SH("a", "M") + " if mp[i * 4 + j, l] == b else 0)", T3("M")), "M", W)
     lem("LA", "forall(0, " + W + " + 1, lambda M: " + QL(H0 + " and l + M <= " + W, T3("M") + " == " + UA("a", "b", "l + M") + " + " + UA("b", "a", "l + M"), T3("M")) + ")")
     # discrete product rule: all pairs l <= l' with l < n
@@ -714,6 +728,9 @@ def _split_chain():
     spec_fn("c07_hs", params=PR, ret="real", let={"P": "w.shape[0]"},
             axioms=["implies(" + HYP + ", forall(0, P, lambda a: forall(0, P, lambda b: c07_hs(w, mp, sz, wt, a, b) == " + OALL("P") + ", pat=c07_hs(w, mp, sz, wt, a, b))))"],
             py=_hs_py, doc="entry (a, b) of sum over cross rows k of w_{k//4}^2 L_k L_k^T, L_k(a) = coefficient of x_a in row k")
+    spec_fn("c07_hsa", params=PR, ret="real", let={"P": "w.shape[0]"},
+            axioms=["implies(" + HYP + ", forall(0, P, lambda a: forall(0, P, lambda b: c07_hsa(w, mp, sz, wt, a, b) == c07_hs(w, mp, sz, wt, a, b), pat=c07_hsa(w, mp, sz, wt, a, b))))"],
+            lemmas=LA2, py=_hs_py, doc="alias of c07_hs that carries the shifted-sum lemma LA2")
     spec_fn("c07_hsl", params=PR, ret="real", let={"P": "w.shape[0]"},
             axioms=["implies(" + HYP + ", forall(0, P, lambda a: forall(0, P, lambda b: c07_hsl(w, mp, sz, wt, a, b) == c07_hs(w, mp, sz, wt, a, b), pat=c07_hsl(w, mp, sz, wt, a, b))))"],
             lemmas=L, py=_hs_py, doc="alias of c07_hs that carries the lemmas relating it to the entrywise contract of the split-cross kernel")
@@ -727,7 +744,7 @@ corollary("C07.split.outer_product", props=["C07"], vars={"w": "real[1]", "mp": 
           requires=_SPREQ + [_DIST],                 # every row lists pairwise distinct pixels (true of the tables reg_split_from returns)
           calls=[("H", U + "pixel_splitted_regularization_matrix_from", {"regularization_weights": "w", "splitted_mappings": "mp", "splitted_sizes": "sz", "splitted_weights": "wt"})],
           ensures=["H.shape[0] == P and H.shape[1] == P and forall(0, P, lambda a: forall(0, P, lambda b: H[a, b] == (1e-08 if a == b else 0) + c07_hs(w, mp, sz, wt, a, b)))",
-                   "forall(0, P, lambda a: forall(0, P, lambda b: c07_hsl(w, mp, sz, wt, a, b) == c07_hs(w, mp, sz, wt, a, b)))"],
+                   "forall(0, P, lambda a: forall(0, P, lambda b: c07_hsa(w, mp, sz, wt, a, b) == c07_hs(w, mp, sz, wt, a, b) and c07_hsl(w, mp, sz, wt, a, b) == c07_hs(w, mp, sz, wt, a, b)))"],
           sentence="the split-cross matrix is 1e-8 I + sum over cross rows k of w_{k//4}^2 L_k L_k^T (a sum of rank-one PSD terms plus a ridge)")
 
 
